@@ -68,6 +68,10 @@ def focus_opts(focus: str, ch: Choices, known: dict, params: dict) -> dict:
         o["max_vars"] = 8
         o["max_extra"] = 5
         o["max_arity"] = 6
+    if focus in ("C01", "C02", "C03", "C08", "C17", "C04") and not params.get("types") and ch.chance(1, 4, "long"):
+        o["max_vars"] = 8
+        o["max_extra"] = 5
+        o["max_arity"] = 6
     if focus == "C16":
         o["max_arity"] = 6
         o["max_vars"] = 8
@@ -163,6 +167,7 @@ def run_one(ch, focus, model, cfg, mode, policy, ref, out) -> str:
         return "ctor"
     em = nucsio.engine_model(model, problem)
     L = EngineListener(em, solver, ch, policy)
+    L.gfp_compare = focus == "C08"
     sols: List[tuple] = []
     result = None
     crashed = None
@@ -299,8 +304,9 @@ def check_stats(solver, L, cfg, mode, delivered, viol, ctx):
     expect("SOLVER_CHOICE_NB", {c["choice"]}, "branching decisions")
     expect(
         "PROPAGATOR_INCONSISTENCY_NB",
-        {c["incons"], c["incons"] + c["wb_fail"]},
-        "executions answering inconsistent (optionally + inconsistencies found while writing back)",
+        {c["incons"] + c["wb_fail"]},
+        "executions resulting in an inconsistency (answered by the constraint, or found when its updates are written "
+        "back: each failed pass is caused by exactly one execution)",
     )
     expect(
         "PROPAGATOR_FILTER_NO_CHANGE_NB",
